@@ -35,6 +35,16 @@ CLAIMED = {
    note="Known finding (dependency, cannot be fixed in /repo): header.decodeStr panics on 1-3 dangling bytes. Assumed: as C07. Not covered: process-level containment (GoWithRecover), HTTP/2 framer and HPACK, matchers.",
    technique="contract-based deductive verification: automatic safety obligations (bounds, nil, within-len, termination) from go/ssa, discharged by SMT",
    design="5/C08"),
+ "C17": dict(
+   text="Proof level on the decision kernels: parseProxyTimeout is verified against the statement's precedence (protocol-supplied context variable, else request header, else route value; 0 means default; try timeout not below the global one is dropped) for all header/variable/route values; the retry budget (initial max(3, NumRetries); one unit consumed per attempt past the zero test; ShouldRetry only while budget is left), the retry decision table of doRetryCheck, and the gating of retries in onUpstreamReset (call-site obligation: never after the downstream response has started, never on the global timeout).",
+   note="Assumed: route/policy getters are pure functions of immutable configuration, context variables and header maps as abstract maps, strconv.ParseInt as an uninterpreted parser. Not covered yet: header add/remove ordering, path/host rewrite, redirect/direct response, the status-code branch of the retry decision, that a retry re-runs host selection.",
+   technique="contract-based deductive verification (WP over go/ssa, SMT) with spec functions for configuration getters and call-site obligations",
+   design="5/C17"),
+ "C18": dict(
+   text="Proof level on the flow-control half only: flow.available/take/add (exact int32 arithmetic; add refuses exactly when the sum leaves int32), both awaitFlowControl loops (whatever other goroutines do while waiting - modelled by havocking all shared state at cond.Wait under a stated rely - the amount taken is in (0, min(maxBytes, maxFrameSize)] and never exceeds the stream or connection window at the moment of taking: take's precondition is an obligation at the call site), and the SETTINGS_INITIAL_WINDOW_SIZE handler (every open stream is adjusted by exactly new minus previously advertised value).",
+   note="Assumed: rely clauses (other goroutines do not re-point a stream at another connection/flow and keep maxFrameSize within (0,2^31)); Connection.State is a pure read. Not covered: wire compatibility with golang.org/x/net/http2 and HPACK agreement (a differential statement against a reference implementation - outside this family), liveness (the body is eventually delivered), the write loops' slicing.",
+   technique="contract-based deductive verification (WP over go/ssa, SMT) with rely clauses at blocking points",
+   design="5/C18"),
 }
 NA = {
  "C11": "quantifies over the arrival time of a signal relative to in-flight requests across two processes (fd passing, drain timers): crash points and schedules of the whole runtime; no function whose pre/postcondition states it (DESIGN.md section 6)",
